@@ -334,8 +334,18 @@ pub fn serve(st: &State, t: &mut Toks) -> PResult<String> {
     let ws = parse_wscript(t)?;
     let na = t.usize_dec()?;
     let mut answers = Vec::new();
+    // Z <ms> in front of an answer: the handler is not ready at once - it yields to the scheduler three times (0) or
+    // sleeps that many milliseconds of (virtual) time - before it returns that answer
+    let mut delays: Vec<Option<u64>> = Vec::new();
     for _ in 0..na {
-        match t.next()? {
+        let mut tok = t.next()?;
+        let mut delay = None;
+        if tok == "Z" {
+            delay = Some(t.u64()?);
+            tok = t.next()?;
+        }
+        delays.push(delay);
+        match tok {
             "F" => answers.push(Ans::Fail),
             "A" => {
                 // the history names its own dictionary
@@ -352,9 +362,11 @@ pub fn serve(st: &State, t: &mut Toks) -> PResult<String> {
     let calls: Arc<Mutex<Vec<String>>> = Arc::new(Mutex::new(Vec::new()));
     let answers = Arc::new(Mutex::new(answers.into_iter().map(Some).collect::<Vec<_>>()));
     let calls2 = Arc::clone(&calls);
+    let delays = Arc::new(delays);
     let handler = move |req: DiameterMessage| {
         let calls = Arc::clone(&calls2);
         let answers = Arc::clone(&answers);
+        let delays = Arc::clone(&delays);
         async move {
             let idx = {
                 let mut c = calls.lock().unwrap();
@@ -364,6 +376,15 @@ pub fn serve(st: &State, t: &mut Toks) -> PResult<String> {
                 c.len() - 1
             };
             let a = answers.lock().unwrap().get_mut(idx).and_then(|x| x.take());
+            match delays.get(idx).copied().flatten() {
+                Some(0) => {
+                    for _ in 0..3 {
+                        tokio::task::yield_now().await;
+                    }
+                }
+                Some(ms) => tokio::time::sleep(std::time::Duration::from_millis(ms)).await,
+                None => {}
+            }
             match a {
                 Some(Ans::Msg(m)) => Ok(m),
                 _ => Err(diameter::error::Error::ServerError("handler failed".into())),
